@@ -1129,42 +1129,48 @@ def rebuild(n, data, replace):
     return ident(n.cls, n.num, True) + length_min(len(content)) + content
 
 
-def rewrites(data, string_nodes=None):
-    """Yield (kind, depth, node_desc, new_bytes) for every single-element non-canonical rewrite of the
-    DER encoding `data`:
-       indef     one constructed element gets indefinite length
-       segment   one primitive string element (given by string_nodes: {start_offset: is_bits}) becomes a
-                 constructed encoding with two primitive segments
-       bool      one BOOLEAN FF becomes another non-zero octet
-    string_nodes/bool positions must be supplied by a typed walk (implicit tags hide universal numbers)."""
+def rewrites(T, data):
+    """Yield (kind, depth, tagging, new_bytes) for every single-element non-canonical rewrite of the DER
+    encoding `data` of a value of T, located by a typed walk (implicit tags are seen through; the opaque
+    contents of ANY values are left alone):
+       indef          one constructed element (container or explicit wrapper) gets indefinite length
+       segment-<k>    one primitive string element of kind k becomes a constructed encoding of two segments
+       bool           one BOOLEAN FF becomes another non-zero octet
+    tagging tells how the rewritten element is tagged: universal / implicit / explicit-wrapper."""
     top = parse_one(data, 0)
-    string_nodes = string_nodes or {}
+    leaves = typed_leaves(T, data, 'DER')
+    # typed_leaves parses again: map by offset onto the nodes of `top`
+    by_start = {}
     for n in top.walk():
+        by_start.setdefault((n.start, n.end), n)
+    for ln, kind, t in leaves:
+        n = by_start[(ln.start, ln.end)]
+        if kind == 'any':
+            continue
+        tagging = 'explicit-wrapper' if kind == 'explicit' else ('universal' if n.cls == 'U' else 'implicit')
         if n.cons:
             content = b''.join(data[c.start:c.end] for c in n.children)
             new = ident(n.cls, n.num, True) + b'\x80' + content + b'\x00\x00'
-            yield ('indef', n.depth, n.describe(), rebuild(top, data, {id(n): new}))
-        elif n.start in string_nodes:
-            kind = string_nodes[n.start]
-            c = n.content(data)
-            if kind == 'bits':
-                pad, body = c[0], c[1:]
-                h = len(body) // 2
-                segs = ident('U', 3, False) + length_min(1 + h) + b'\x00' + body[:h] + \
-                    ident('U', 3, False) + length_min(1 + len(body) - h) + bytes([pad]) + body[h:]
-                yield ('segment-bits', n.depth, n.describe(),
-                       rebuild(top, data, {id(n): ident(n.cls, n.num, True) + length_min(len(segs)) + segs}))
-            elif kind == 'bool':
-                if c == b'\xff':
-                    for alt in (b'\x01', b'\x7f', b'\xfe'):
-                        yield ('bool', n.depth, n.describe(),
-                               rebuild(top, data, {id(n): ident(n.cls, n.num, False) + b'\x01' + alt}))
-            else:
-                h = len(c) // 2
-                segs = ident('U', 4, False) + length_min(h) + c[:h] + \
-                    ident('U', 4, False) + length_min(len(c) - h) + c[h:]
-                yield ('segment-' + kind, n.depth, n.describe(),
-                       rebuild(top, data, {id(n): ident(n.cls, n.num, True) + length_min(len(segs)) + segs}))
+            yield ('indef', n.depth, tagging, rebuild(top, data, {id(n): new}))
+            continue
+        c = n.content(data)
+        if kind == 'bits':
+            pad, body = c[0], c[1:]
+            h = len(body) // 2
+            segs = ident('U', 3, False) + length_min(1 + h) + b'\x00' + body[:h] + \
+                ident('U', 3, False) + length_min(1 + len(body) - h) + bytes([pad]) + body[h:]
+            yield ('segment-bits', n.depth, tagging,
+                   rebuild(top, data, {id(n): ident(n.cls, n.num, True) + length_min(len(segs)) + segs}))
+        elif kind in ('octs', 'char', 'useful'):
+            h = len(c) // 2
+            segs = ident('U', 4, False) + length_min(h) + c[:h] + \
+                ident('U', 4, False) + length_min(len(c) - h) + c[h:]
+            yield ('segment-' + kind, n.depth, tagging,
+                   rebuild(top, data, {id(n): ident(n.cls, n.num, True) + length_min(len(segs)) + segs}))
+        elif kind == 'bool' and c == b'\xff':
+            for alt in (b'\x01', b'\x7f', b'\xfe'):
+                yield ('bool', n.depth, tagging,
+                       rebuild(top, data, {id(n): ident(n.cls, n.num, False) + b'\x01' + alt}))
 
 
 def typed_leaves(T, data, rules='BER'):
